@@ -45,17 +45,24 @@ theorem get_append_old {α} {c : Cas α} {d e : Digest} {a b : α} (h : c.get d 
 theorem casOk_get {α} {o : Ops α} {c : Cas α} (hc : CasOk o c) {d : Digest} {a : α} (h : c.get d = some a) :
     d = trueDigest o a := hc (d, a) (get_mem h)
 
+theorem foreign_false_of_consistent {α} {o : Ops α} {f : Field α} {a : α} (hf : Consistent o f) (hr : f.raw = some a) :
+    foreign o f a = false := by
+  unfold foreign
+  cases hdg : f.dig with
+  | none => rfl
+  | some d => simp [hf a d hr hdg]
+
 /-- **the budget is kept**: when the de-inlining uploads succeed, the running total never exceeds
 `maxInlineSize` -/
 theorem maybeInline_budget {α} (o : Ops α) (max : Int) (want : Bool) (f : Field α) (sofar : Int) (cas : Cas α) (s : Step α)
-    (h : maybeInline o max true want f sofar cas = some s) (hs : sofar ≤ max) : s.sofar ≤ max := by
+    (h : maybeInline o max true want f sofar cas = some s) (hs : sofar ≤ max) (hf : Consistent o f) : s.sofar ≤ max := by
   unfold maybeInline at h
   split at h
   · -- not inlined
     cases hr : f.raw with
     | none => simp only [hr, Option.some.injEq] at h; rw [← h]; exact hs
     | some a =>
-      simp only [hr] at h
+      simp only [hr, foreign_false_of_consistent hf hr, Bool.false_eq_true, if_false] at h
       split at h
       · simp only [Option.some.injEq] at h; rw [← h]; exact hs
       · simp only [if_true, Option.some.injEq] at h; rw [← h]; exact hs
@@ -92,7 +99,7 @@ theorem maybeInline_budget {α} (o : Ops α) (max : Int) (want : Bool) (f : Fiel
 /-- **what a field stands for is unchanged**, and the CAS stays consistent: inlining copies the
 blob the digest names, de-inlining stores the inline bytes under their true digest -/
 theorem maybeInline_content {α} (o : Ops α) (max : Int) (putOk want : Bool) (f : Field α) (sofar : Int) (cas : Cas α) (s : Step α)
-    (h : maybeInline o max putOk want f sofar cas = some s) (hc : CasOk o cas) (hn : NoColl o) (hf : Consistent o f) :
+    (h : maybeInline o max putOk want f sofar cas = some s) (hc : CasOk o cas) (hn : NoColl o) :
     content s.cas s.field = content cas f ∧ CasOk o s.cas ∧ (∀ d a, cas.get d = some a → s.cas.get d = some a) := by
   unfold maybeInline at h
   split at h
@@ -100,11 +107,10 @@ theorem maybeInline_content {α} (o : Ops α) (max : Int) (putOk want : Bool) (f
     | none => simp only [hr, Option.some.injEq] at h; rw [← h]; exact ⟨rfl, hc, fun _ _ x => x⟩
     | some a =>
       simp only [hr] at h
-      have hd : f.dig.getD (trueDigest o a) = trueDigest o a := by
-        cases hdg : f.dig with
-        | none => rfl
-        | some d => simp only [Option.getD_some]; exact hf a d hr hdg
-      rw [hd] at h
+      cases hfo : foreign o f a with
+      | true => simp only [hfo, if_true, Option.some.injEq] at h; rw [← h]; exact ⟨rfl, hc, fun _ _ x => x⟩
+      | false =>
+      simp only [hfo, Bool.false_eq_true, if_false] at h
       split at h
       · rename_i hg
         simp only [Option.some.injEq] at h
@@ -184,11 +190,7 @@ theorem maybeInline_deinlines {α} (o : Ops α) (max : Int) (want : Bool) (f : F
   cases hr : f.raw with
   | none => exact ⟨_, rfl, hr, rfl, fun a h => by cases h⟩
   | some a =>
-    have hd : f.dig.getD (trueDigest o a) = trueDigest o a := by
-      cases hdg : f.dig with
-      | none => rfl
-      | some d => simp only [Option.getD_some]; exact hf a d hr hdg
-    simp only [hd]
+    simp only [foreign_false_of_consistent hf hr, Bool.false_eq_true, if_false]
     split
     · rename_i hg
       refine ⟨_, rfl, rfl, rfl, ?_⟩
@@ -226,20 +228,20 @@ theorem content_mono {α} {c1 c2 : Cas α} (hm : ∀ d a, c1.get d = some a → 
 for, the CAS only grows and stays consistent -/
 theorem pipeline_spec {α} (o : Ops α) (max : Int) (hn : NoColl o) :
     ∀ (items : List (Bool × Bool × Field α)) (sofar : Int) (cas : Cas α) (fs : List (Field α)) (sf : Int) (c : Cas α),
-      pipeline o max items sofar cas = some (fs, sf, c) → CasOk o cas → (∀ it ∈ items, Consistent o it.2.2) →
+      pipeline o max items sofar cas = some (fs, sf, c) → CasOk o cas →
       CasOk o c ∧ (∀ d a, cas.get d = some a → c.get d = some a) ∧
       fs.length = items.length ∧ (∀ p ∈ items.zip fs, ∀ a, content cas p.1.2.2 = some a → content c p.2 = some a) ∧
-      ((∀ it ∈ items, it.2.1 = true) → sofar ≤ max → sf ≤ max) := by
+      ((∀ it ∈ items, it.2.1 = true ∧ Consistent o it.2.2) → sofar ≤ max → sf ≤ max) := by
   intro items
   induction items with
   | nil =>
-    intro sofar cas fs sf c h hc _
+    intro sofar cas fs sf c h hc
     simp only [pipeline, Option.some.injEq, Prod.mk.injEq] at h
     obtain ⟨h1, h2, h3⟩ := h
     subst h1; subst h2; subst h3
     exact ⟨hc, fun _ _ x => x, rfl, fun p hp => by simp at hp, fun _ hs => hs⟩
   | cons it rest ih =>
-    intro sofar cas fs sf c h hc hcons
+    intro sofar cas fs sf c h hc
     obtain ⟨want, putOk, f⟩ := it
     simp only [pipeline] at h
     cases hm : maybeInline o max putOk want f sofar cas with
@@ -253,8 +255,8 @@ theorem pipeline_spec {α} (o : Ops α) (max : Int) (hn : NoColl o) :
         simp only [hp, Option.some.injEq, Prod.mk.injEq] at h
         obtain ⟨h1, h2, h3⟩ := h
         subst h1; subst h2; subst h3
-        obtain ⟨hcont, hc1, hmono1⟩ := maybeInline_content o max putOk want f sofar cas s hm hc hn (hcons (want, putOk, f) (by simp))
-        obtain ⟨hc2, hmono2, hlen, hall, hbud⟩ := ih s.sofar s.cas fs' sf' c' hp hc1 (fun it hit => hcons it (by simp [hit]))
+        obtain ⟨hcont, hc1, hmono1⟩ := maybeInline_content o max putOk want f sofar cas s hm hc hn
+        obtain ⟨hc2, hmono2, hlen, hall, hbud⟩ := ih s.sofar s.cas fs' sf' c' hp hc1
         refine ⟨hc2, fun d a x => hmono2 d a (hmono1 d a x), by simp [hlen], ?_, ?_⟩
         · intro p hp a ha
           simp only [List.zip_cons_cons, List.mem_cons] at hp
@@ -264,9 +266,9 @@ theorem pipeline_spec {α} (o : Ops α) (max : Int) (hn : NoColl o) :
             exact content_mono hmono2 this
           · exact hall p hp a (content_mono hmono1 ha)
         · intro hput hs
-          have hp1 : putOk = true := hput (want, putOk, f) (by simp)
+          have hp1 : putOk = true := (hput (want, putOk, f) (by simp)).1
           subst hp1
-          have := maybeInline_budget o max want f sofar cas s hm hs
+          have := maybeInline_budget o max want f sofar cas s hm hs (hput (want, true, f) (by simp)).2
           exact hbud (fun it hit => hput it (by simp [hit])) this
 
 end BR.Inline
